@@ -6,6 +6,7 @@
 -/
 import Driver.Codec
 import Mistletoe.Props.C14
+import Mistletoe.Props.C03
 open Lean Mistletoe
 
 /-- op "c14.hyps": {"lines": [String]} → the hypotheses of `C14_prose_text` evaluated on these lines -/
@@ -19,9 +20,38 @@ def c14Hyps (j : Json) : Except String Json := do
                     ("proseLine", Json.bool prose), ("inertBody", Json.bool body),
                     ("text", Driver.str (Document.joinNl (lines.map Py.strip)))])
 
+/-- a tree of the C03 fragment from JSON: {"k":"para","lines":[…]} | {"k":"heading","level":n,"text":…,"line":…}
+    | {"k":"hr","line":…} | {"k":"quote","bare":b,"kids":[…]} -/
+partial def treeOf (j : Json) : Except String Compose.T := do
+  let k ← j.getObjValAs? String "k"
+  match k with
+  | "para" => do
+    let ls ← (← Driver.getArr j "lines").toList.mapM Driver.asStr
+    pure (.para ls)
+  | "heading" => do
+    let lv ← j.getObjValAs? Nat "level"
+    pure (.heading lv (← Driver.getStr j "text") (← Driver.getStr j "line"))
+  | "hr" => do pure (.hr (← Driver.getStr j "line"))
+  | "quote" => do
+    let b ← j.getObjValAs? Bool "bare"
+    let kids ← (← Driver.getArr j "kids").toList.mapM treeOf
+    pure (.quote b kids)
+  | k => throw s!"tree kind {k}"
+
+/-- op "c03.fragment": {"forest": [tree], "dq": Bool, "sq": Bool} → the hypothesis `T.oks` of `C03_html_partial`
+    evaluated on the forest, the text the writer produces, and the HTML the theorem concludes -/
+def c03Fragment (j : Json) : Except String Json := do
+  let ts ← (← Driver.getArr j "forest").toList.mapM treeOf
+  let o : Html.Opts := { dq := (j.getObjValAs? Bool "dq").toOption.getD false, sq := (j.getObjValAs? Bool "sq").toOption.getD false }
+  pure (Json.mkObj [("ok", Json.bool (Compose.T.oks ts && !ts.isEmpty)),
+                    ("text", Driver.str (Compose.writes ts).flatten),
+                    ("html", Driver.str (Compose.htmlOf o ts)),
+                    ("needs", Driver.nat (Compose.needs ts))])
+
 def dispatch (op : String) (j : Json) : Except String Json :=
   match op with
   | "c14.hyps" => c14Hyps j
+  | "c03.fragment" => c03Fragment j
   | "ping" => pure (Json.str "pong")
   | _ => throw s!"unknown op {op}"
 
